@@ -21,10 +21,11 @@ FUNCS = CROP_FUNCS
 
 
 def body_partition(E, api, n, mode, b, shuf, farmer, cv, j1, j2, j3, j4, j5, resow=False):
-    api = concretize(api, 0, 3)        # 0 grid, 1 case tuples, 2 cases x sub-grid, 3 ONE case given as a bare dict x sub-grid
+    api = concretize(api, 0, 4)        # 0 grid, 1 case tuples, 2 cases x sub-grid, 3 ONE case given as a bare dict x sub-grid
+    #                                    4 cases x sub-grid through sow_cases(fn_args, cases, combos=<dict>)
     n = concretize(n, 1, 10)
     mode = concretize(mode, 0, 2)
-    N = 2 * n if api == 2 else n
+    N = 2 * n if api in (2, 4) else n
     b = concretize(b, 1, N + 2)
     shuf = concretize(shuf, 0, 2)      # 0 none, 1 True, 2 int
     farmer = concretize(farmer, 0, 1)
@@ -55,6 +56,9 @@ def body_partition(E, api, n, mode, b, shuf, farmer, cv, j1, j2, j3, j4, j5, res
         elif api == 2:
             combo_runner(fn, {"b": [20, 21]}, cases=[{"a": 10 + i} for i in range(n)],
                          constants=full_consts, verbosity=0)
+        elif api == 4:
+            case_runner(fn, ("a",), [(10 + i,) for i in range(n)], combos={"b": [20, 21]},
+                        constants=full_consts, verbosity=0)
         else:
             combo_runner(fn, {"b": [20 + i for i in range(n)]}, cases={"a": 10, "c": 3},
                          constants=full_consts, verbosity=0)
@@ -76,6 +80,9 @@ def body_partition(E, api, n, mode, b, shuf, farmer, cv, j1, j2, j3, j4, j5, res
         elif api == 2:
             crop.sow_combos({"b": [20, 21]}, cases=[{"a": 10 + i} for i in range(n)],
                             constants=consts, shuffle=shuffle, verbosity=0)
+        elif api == 4:
+            crop.sow_cases(("a",), [(10 + i,) for i in range(n)], combos={"b": [20, 21]},
+                           constants=consts, verbosity=0)
         else:
             crop.sow_combos({"b": [20 + i for i in range(n)]}, cases={"a": 10, "c": 3},
                             constants=consts, shuffle=shuffle, verbosity=0)
@@ -181,6 +188,11 @@ CONDS = (
                  ["1 <= n <= 3 and 0 <= mode <= 2 and 1 <= b <= 2 * n + 2 and shuf == 0 and 0 <= farmer <= 1",
                   "j1 == 0 and j2 == 0 and j3 == 0 and j4 == 0 and j5 == 0", "not resow"], fixed=dict(api=2),
                  timeout=300, tiers=("quick",), bounds="cases x sub-grid, N=2n<=6, all batchings, farmer on/off")]
+    + [make_cond(_G, "partition_api4", body_partition, _SIG,
+                 ["1 <= n <= 3 and 0 <= mode <= 2 and 1 <= b <= 2 * n + 2 and shuf == 0 and 0 <= farmer <= 1",
+                  "j1 == 0 and j2 == 0 and j3 == 0 and j4 == 0 and j5 == 0", "not resow"], fixed=dict(api=4),
+                 timeout=300, bounds="cases x sub-grid through sow_cases(fn_args, cases, combos=<dict>), N=2n<=6, "
+                                     "all batchings, farmer on/off")]
     + [make_cond(_G, "partition_api3", body_partition, _SIG,
                  ["1 <= n <= 6 and 0 <= mode <= 2 and 1 <= b <= n + 2 and shuf == 0 and farmer == 0",
                   "j1 == 0 and j2 == 0 and j3 == 0 and j4 == 0 and j5 == 0", "not resow"], fixed=dict(api=3),
